@@ -32,9 +32,11 @@ CONFIGS = {
                          ("ControllerMC_stable_sim.cfg", "sim")]},
     "C06": {"quick": [("ControllerMC_crash.cfg", "edges"), ("ControllerMC_crash3.cfg", "edges"), ("ControllerMC_fault.cfg", "edges"),
                       ("ControllerMC_crashfault.cfg", "edges"), ("ControllerMC_preferfault.cfg", "edges"),
-                      ("ControllerMC_crashfault3.cfg", "edges"), ("ControllerMC_crashlayout.cfg", "edges")],
+                      ("ControllerMC_crashfault3.cfg", "edges"), ("ControllerMC_crashlayout.cfg", "edges"),
+                      ("ControllerMC_crashreq.cfg", "edges")],
             "thorough": [("ControllerMC_crash.cfg", "edges"), ("ControllerMC_crash3.cfg", "edges"), ("ControllerMC_fault.cfg", "edges"),
                          ("ControllerMC_preferfault.cfg", "edges"), ("ControllerMC_crashfault3.cfg", "edges"),
+                         ("ControllerMC_crashlayout.cfg", "edges"), ("ControllerMC_crashreq.cfg", "edges"),
                          ("ControllerMC_crashfault.cfg", "edges"), ("ControllerMC_stale.cfg", "edges"),
                          ("ControllerMC_crash_sim.cfg", "sim"), ("ControllerMC_stale_sim.cfg", "sim")]},
     "C07": {"quick": [("ControllerMC_starve.cfg", "edges"), ("ControllerMC_fault.cfg", "edges"), ("ControllerMC_prefer.cfg", "edges")],
@@ -127,12 +129,12 @@ def signature(fail, obs, walk_obs=None, k=None):
     return "%s|op=%s" % (fail, obs.get("op"))
 
 
-def replay_walks(chk, scen_path, domain_path, tag):
+def replay_walks(chk, scen_path, domain_path, tag, seed=None):
     obs_path = os.path.join(chk.work, "obs_%s.ndjson" % tag)
     ov = vlib.overlay_for(mapping(), chk.work)
     rc, out = vlib.go_test("controller", "^TestVerifControllerReplay$", ov,
                            {"VERIF_SCENARIOS": scen_path, "VERIF_OBS": obs_path, "VERIF_DOMAIN": domain_path,
-                            "VERIF_SEED": chk.seed})
+                            "VERIF_SEED": chk.seed if seed is None else seed})
     if rc != 0:
         raise vlib.Inconclusive("controller harness failed (rc=%s):\n%s" % (rc, out[-3000:]))
     return obs_path
@@ -302,7 +304,9 @@ def replay(chk, path):
     scen = os.path.join(chk.work, "scen_replay.ndjson")
     with open(scen, "w") as fh:
         fh.write(json.dumps({"id": sc.get("id", "w0"), "init": sc["init"], "steps": sc["steps"]}) + "\n")
-    obs_path = replay_walks(chk, scen, domain_path, "replay")
+    # the order of List results and other environment choices of the harness derive from (seed, walk id):
+    # a replay uses the seed the scenario was recorded with
+    obs_path = replay_walks(chk, scen, domain_path, "replay", seed=body.get("seed"))
     fails, nlines = judge(chk, obs_path)
     obs = [json.loads(l) for l in open(obs_path)]
     chk.cov["evaluations"] = nlines
